@@ -35,7 +35,7 @@ type C08Case struct {
 var c08Faults = map[string][]string{
 	"streamable-json": {"none", "refuse", "close", "reset", "truncate", "stall", "http404", "http500", "http503"},
 	"streamable-sse":  {"none", "refuse", "close", "reset", "truncate", "stall", "http404", "http500", "http503"},
-	"legacy":          {"none", "refuse", "close", "reset", "truncate", "stall", "http404", "http500", "noendpoint"},
+	"legacy":          {"none", "refuse", "close", "reset", "truncate", "stall", "http404", "http500", "noendpoint", "stallposts"},
 	"stdio":           {"none", "close", "stall", "exit0", "exit3", "kill9"},
 }
 
@@ -48,7 +48,7 @@ func genC08(t *rapid.T) C08Case {
 	}
 	c.Pending = rapid.IntRange(1, 8).Draw(t, "pending")
 	c.Ctx = rapid.SampledFrom([]string{"none", "none", "cancel", "deadline"}).Draw(t, "ctx")
-	if c.Fault == "stall" && c.Ctx == "none" {
+	if (c.Fault == "stall" || c.Fault == "stallposts") && c.Ctx == "none" {
 		c.Ctx = "deadline" // a stall is only required to end when the caller set a limit
 	}
 	return c
@@ -60,7 +60,7 @@ func c08Enumerated() []C08Case {
 		for _, f := range c08Faults[cl] {
 			for _, cut := range []int{-1, 0, 1, 50, 99, 100} {
 				for _, cx := range []string{"none", "cancel", "deadline"} {
-					if f == "stall" && cx == "none" {
+					if (f == "stall" || f == "stallposts") && cx == "none" {
 						continue
 					}
 					if f == "none" && cut != 100 {
@@ -69,7 +69,7 @@ func c08Enumerated() []C08Case {
 					if f == "refuse" && cut != -1 {
 						continue
 					}
-					if (strings.HasPrefix(f, "http") || f == "noendpoint") && cut != 100 {
+					if (strings.HasPrefix(f, "http") || f == "noendpoint" || f == "stallposts") && cut != 100 {
 						continue
 					}
 					for _, p := range []int{1, 3} {
@@ -148,6 +148,10 @@ func execC08(c C08Case) *Failure {
 			}
 			if c.Fault == "none" {
 				return FakeAction{}
+			}
+			if c.Fault == "stallposts" {
+				// the calls are acknowledged and never answered; from then on the server leaves every further POST hanging
+				return FakeAction{Kind: "silent"}
 			}
 			if strings.HasPrefix(c.Fault, "http") {
 				// every pending call is answered with the error status and a body the client has no use for
@@ -284,6 +288,15 @@ func execC08(c C08Case) *Failure {
 			t, err := callEcho(ctx, cl)
 			results[i] = res{t, err, time.Since(t0)}
 		}(i, ctx)
+	}
+	if c.Fault == "stallposts" && fake != nil {
+		base := fake.Accepted.Load()
+		deadline := time.Now().Add(limit / 2)
+		for fake.Accepted.Load() < base+int64(c.Pending) && time.Now().Before(deadline) {
+			time.Sleep(200 * time.Microsecond)
+		}
+		fake.StallPosts.Store(true)
+		defer fake.StallPosts.Store(false)
 	}
 	if c.Ctx == "cancel" {
 		time.AfterFunc(limit, func() {
